@@ -54,7 +54,7 @@ CHECKS = {
          "readiness, honest context cancellation, NoMissedWakeup, and TeardownAndDestroy completion under fairness. "
          "TLC-simulated schedules are replayed on the real helpers through a gating CoreState proxy inside a synctest "
          "bubble (one underlying call / one delivery per scheduling decision); the recorded trace is judged by TLC "
-         "against the property-level spec TraceHelpers.tla. Watchers blocked across a re-creation of the resource (versions restart) are part of the model-checked and replayed programs; TeardownAndDestroy may surface the pending-finalizers conflict only after it saw the finalizers empty after its own teardown took effect.",
+         "against the property-level spec TraceHelpers.tla. Watchers blocked across a re-creation of the resource (versions restart) are part of the model-checked and replayed programs; TeardownAndDestroy may surface the pending-finalizers conflict only after it saw the finalizers empty after its own teardown took effect. Three parties adding and removing their own finalizers after an earlier removal (ProgramsFins) are model-checked and replayed: every finalizer write must be exactly the requested change of the then-current set.",
     note="Trusted: TLC, synctest, the gating proxy. Schedules replayed on the code are a TLC-simulated sample (quick 300, "
          "thorough 6000) of the interleavings that the model checks exhaustively; one resource, 3 actors.",
     technique="TLA+ helper step-machine model + TLC (safety and liveness); schedule replay through a gating proxy; TLC trace validation",
@@ -67,7 +67,7 @@ CHECKS = {
          "the judge TraceHelpers.tla checks on every real trace: written value = mutation applied to the then-current "
          "value, applied exactly once, returned object = written object, errors had no effect, owner/phase conflicts never "
          "turned into success, no call spins forever. "
-         "The token mutators also count their applications (not idempotent), so a mutation applied twice on the way to one successful write is rejected (applied-twice); a dedicated program menu (create / destroy racing Modify's create path) with an alternating scheduler bias is part of every run, and a directed schedule reproduces the open ABA finding. Idempotent mutators racing a teardown are part of the programs (a success must have found the expected phase).",
+         "The token mutators also count their applications (not idempotent), so a mutation applied twice on the way to one successful write is rejected (applied-twice); a dedicated program menu (create / destroy racing Modify's create path) with an alternating scheduler bias is part of every run, and a directed schedule reproduces the open ABA finding. Idempotent mutators racing a teardown are part of the programs (a success must have found the expected phase). Two callers applying the same non-idempotent mutation (ProgramsSame: both compute the same result from the same base) are part of every run: two successes must be two applications.",
     note="Trusted: as C03. Known finding C04/aba (stale update over a re-created incarnation with coinciding version) is "
          "listed in known_findings.json and modelled as the named deviation RecreateSameVersionABA.",
     technique="TLA+ helper step-machine model + TLC; schedule replay through a gating proxy; TLC trace validation",
@@ -95,7 +95,7 @@ CHECKS = {
          "(registration before and after start, both flavours) run on the real runtime in a synctest bubble; after every call "
          "the outcome, the exported graph and, for writes to every probe key in three phases, the set of notified probe "
          "controllers are recorded and judged by TLC (TraceDepDB.tla: must-notify subset-of woken subset-of may-notify). "
-         "A crash of the delivery goroutine is detected as a dead driver process and attributed to the running behaviour. Updates that change nothing but the kind of existing inputs are part of the call sequences.",
+         "A crash of the delivery goroutine is detected as a dead driver process and attributed to the running behaviour. Updates that change nothing but the kind of existing inputs are part of the call sequences. Directed real-thread schedules park an event delivery exactly while a rejected and while an accepted registration hold the runtime lock (dependency lookups racing registration).",
     note="Trusted: TLC, synctest quiescence for 'who woke up'. One namespace; UpdateInputs only for running reduced-runtime "
          "controllers (API).",
     technique="TLA+ dependency-database model + TLC (incl. refinement of the call sequences); model-based replay on the real runtime; TLC trace validation",
@@ -125,7 +125,7 @@ CHECKS = {
          "current state of its inputs` and `every mapped change reached the primaries its mapper names`, on five controller "
          "configurations. TLC-simulated schedules (writes, batch flushes, reconcile releases, late starts, failing reconciles) "
          "drive the real runtime with probe controllers in a synctest bubble through an interposing CoreState that holds and "
-         "merges aggregated watch batches; what every reconcile read and a final quiet point are judged by TLC (TraceRuntime). The delivery goroutine of the runtime is parked at a build-tag guarded scheduler gate and released by the schedule; batches that carry nothing (bookmarks) are modelled and injected.",
+         "merges aggregated watch batches; what every reconcile read and a final quiet point are judged by TLC (TraceRuntime). The delivery goroutine of the runtime is parked at a build-tag guarded scheduler gate and released by the schedule; batches that carry nothing (bookmarks) are modelled and injected. Directed real-thread schedules race event delivery against a rejected and an accepted registration (no crash, no wake-up lost, lookups of different ids of one kind do not disturb each other).",
     note="Trusted: TLC, synctest quiescence (quiet = nothing recorded during 3 virtual minutes after everything was released). "
          "Dedup/delivery goroutine steps run eagerly on the code; their interleavings are exhaustive only in the model.",
     technique="TLA+ pipeline model + TLC; schedule replay on the real runtime in a synctest bubble; TLC trace validation",
@@ -138,8 +138,8 @@ CHECKS = {
          "current contents, contexts are cancelled iff the resource is/was torn down, removed or absent (TraceCache). "
          "Black box: runtime schedules with cached kinds; cached reads after every step must be version-monotone per "
          "incarnation, controllers reading through the cache must not lose wake-ups, and cached = uncached at the quiet point. "
-         "A filtered List running concurrently with one cache mutation (a hook in the cached resources' Metadata() lets the mutation land in the middle of the scan) must return the contents at one instant. Teardown-bound contexts handed out by the runtime for cached resources are tracked (cancelled exactly when the resource is torn down, removed or absent), including removal and re-creation within one batch; pipeline hook traces of the runtimes are judged by TracePipe.tla.",
-    note="Trusted: as C05. Filtered cached lists are exercised by C14's selector table at the cache site.",
+         "A filtered List running concurrently with one cache mutation (a hook in the cached resources' Metadata() lets the mutation land in the middle of the scan) must return the contents at one instant. Teardown-bound contexts handed out by the runtime for cached resources are tracked (cancelled exactly when the resource is torn down, removed or absent), including removal and re-creation within one batch; pipeline hook traces of the runtimes are judged by TracePipe.tla. Label / ID filtered cached lists at quiet: the selector algebra's table (Selector.tla, emitted by TLC) is evaluated by the runtime cache's List and judged against the algebra (TraceSelector).",
+    note="Trusted: as C05.",
     technique="TLA+ cache model + pipeline model, TLC; white-box and black-box replay; TLC trace validation",
     ref="5.15"),
  "C16": dict(
@@ -150,7 +150,7 @@ CHECKS = {
          "returns the watch error (and no error on plain cancel), no reconcile activity and no leaked goroutine after Run "
          "returned; restart sequences (error / panic / reset) of a controller, a run hook and a task judged against the "
          "back-off envelope with a fresh reconcile after every restart (TraceBackoff). "
-         "Failing queue items of a QController (error, panic, requeue with and without interval, including RequeueError(err, 0)) are driven and judged against the back-off envelope with the nothing-lost rule (stage shared with C09 b). "
+         "Failing queue items of a QController (error, panic, requeue with and without interval, including RequeueError(err, 0)) are driven and judged against the back-off envelope with the nothing-lost rule (stage shared with C09 b), including two failing items with outcome sequences of their own (a later retry deadline of one must not hold up the other). "
          "pkg/task is specified in TaskRunner.tla (registry / live goroutines under StartTask, StopTask, Reconcile, Stop, bodies finishing, failing, panicking) and random walks are replayed on a real task.Runner with the set of executing task instances judged after every command; the output-tracking stage (panic between StartTrackingOutputs and CleanupOutputs) is shared with C08. Failures of controllers, queue items and run hooks alternate between plain errors and errors that wrap context.DeadlineExceeded / context.Canceled while the runtime is alive; long streaks of consecutive failures are part of the restart stage.",
     note="Trusted: as C05; goroutine leak measured by process goroutine count inside the bubble.",
     technique="TLA+ pipeline/back-off models + TLC; fault-schedule replay in virtual time; TLC trace validation",
@@ -163,7 +163,7 @@ CHECKS = {
          "running inputs, no orphan except held by a foreign finalizer, torn-down inputs released`. The real transform / "
          "qtransform controllers (6 option configurations) run on the real runtime in a synctest bubble while TLC-generated "
          "external histories are executed, optionally with the transform held in flight or failing transiently; the quiet "
-         "snapshot is judged by TLC (TraceLifecycle.tla, JUDGE=C06). Skip mode (the transform asks to skip every reconcile from some point on) and configurations with destroy.Controller for the input type are driven as well.",
+         "snapshot is judged by TLC (TraceLifecycle.tla, JUDGE=C06). Skip mode (the transform asks to skip every reconcile from some point on) and configurations with destroy.Controller for the input type are driven as well. Configurations with an optional mapping (MapMetadataOptionalFunc turning None for an input that was mapped) and directed ignore-teardown scenarios are part of every run.",
     note="Trusted: TLC, synctest quiescence, C05 (notification fairness). Known finding (ignore-teardown options) listed in "
          "known_findings.json and reproduced by the model config MC_LifecycleQT_ignore.",
     technique="TLA+ controller lifecycle models + TLC; history replay on the real controllers; TLC trace validation",
@@ -224,7 +224,7 @@ CHECKS = {
          "local watches (TraceWatch.tla: exact prefix of the committed log after the start contents - no gap, duplicate, "
          "reorder, bootstrap re-delivery - nothing missing at the end) plus: a terminal Errored after a fault is accepted only "
          "if retries are disabled, no bookmark had been seen, or the last bookmark is no longer valid. "
-         "A regression corpus (behaviours on which defects were found) is replayed in every run. A real-wire stage runs the client adapter over a real gRPC connection to a server that is stopped and started again, with subscribers of every kind including ID and label selectors.",
+         "Every third fault ends the stream cleanly (the server side completes it: bare io.EOF) instead of breaking it. A regression corpus (behaviours on which defects were found) is replayed in every run. A real-wire stage runs the client adapter over a real gRPC connection to a server that is stopped and started again, with subscribers of every kind including ID and label selectors.",
     note="Trusted: TLC, synctest virtual time, the stream shim (harness code implementing grpc stream interfaces). Outages are "
          "shorter than the 15 min retry budget; real-wire server restarts are not driven.",
     technique="TLA+ ring/bookmark model + TLC; fault-schedule replay of the real client/server pair in virtual time; TLC trace validation",
@@ -265,7 +265,7 @@ CHECKS = {
          "checks the frame condition `a mutation through one handle changes nothing else` and, as a vacuity guard, that the "
          "write-in-place variant of the model violates it. TLC-generated programs (create / get / list / update / modify "
          "with the callback's object retained / metadata copies by Copy() and by struct assignment, interleaved with every "
-         "public mutator: labels Set/Delete/Do, annotations, finalizers Add/Remove/Set, phase, version, owner, spec) run on "
+         "public mutator: labels Set/Delete/Do (transactions starting with a set and with a removal), annotations Set/Delete/Do, finalizers Add/Remove/Set, phase, version, owner, spec) run on "
          "the in-memory state, the gRPC stack and the runtime ResourceCache fed from a kind watch exactly as the runtime does; "
          "after every step the store contents (read independently), a watch-fed replica and every held object are logged and "
          "TLC judges that a mutation changed only the mutated handle (TraceAlias.tla). "
